@@ -307,6 +307,9 @@ example : Valid 2 2 dp2 :=
   ⟨rfl, fun f => by cases f <;> exact ⟨_, rfl, rfl, rfl⟩, 99, rfl⟩
 example : (1 : Nat) = 1 ∨ 2 ≤ 3 := Or.inl rfl
 example : tableSide [2] = 3 ∧ tableSide [0, 1] = 2 ∧ [0, 1].Nodup := by decide
+-- idempotent canonicalisations exist: the identity (metadata that is plain JSON) and a non-trivial one
+example : ∀ t : Nat, id (id t) = id t := fun _ => rfl
+example : ∀ t : Nat, (fun t => t % 10) ((fun t => t % 10) t) = (fun t => t % 10) t := fun t => Nat.mod_mod t 10
 
 /-- the empty file system -/
 def noFiles : FS Unit Nat := fun _ _ => none
